@@ -19,7 +19,7 @@ CHECKS = {
     "C06": dict(tech="TLC trace validation of traced-Merlin operation logs of both roles against the specification's operation schedule (order-preserving embedding), RoleSync invariant",
                 text="Every transcript operation of prover and verifier (label, payload identity, order, challenges, forks, RNG construction) recorded from the real code is matched by TLC against the schedule the specification derives for the statement and proof shape; returned transcripts must drive equal follow-up challenges.",
                 note="payload identity by value on toy curves; extra identical appends tolerated (C18 demands equality)", ref="5 C06"),
-    "C04": dict(tech="TLC model checking of EveryFieldWeighted/EveryFieldAbsorbed on the verifier model (MC_Tamper) + replay of every (shape, field, alteration) on the real code + TLC trace validation of exact verdicts on toy curves + exhaustive single-bit flips",
+    "C04": dict(tech="TLC model checking of EveryFieldWeighted/EveryFieldAbsorbed on the verifier model (MC_Tamper) + replay of every (shape, field, alteration) on the real code + TLC trace validation on toy31723 (IdealIntegrity over the code's verdicts; IntegrityOrder: every proof element absorbed before each later challenge, the fork's combiner r included) + exhaustive single-bit flips",
                 text="Every field of the proof is shown to carry a non-zero weight and to be absorbed before the next challenge in the model; every generated alteration of honest one- and two-phase proofs and every single-bit flip of their encodings must be rejected at decoding or verification (or decode to the identical object) on all curves.",
                 note="n <= 5 (9); 2 (9) encodings per curve for the bit sweep; toy verdicts exact", ref="5 C04"),
     "C07": dict(tech="TLC model checking of BatchIff/BatchCorrelated over F_7 (MC_Batch, with a failing shared-weight spec mutant) + replay of every batch pattern and order on the real batch_verify + TLC trace validation of the batch verdict from recorded weights on toy curves",
@@ -30,14 +30,14 @@ CHECKS = {
                 note="grid gates <= 9 (12), lengths <= 6 (9); catch_unwind instead of the crate's panic=abort; one genuine defect found by this check and repaired (known_findings.json)", ref="5 C08, 6"),
     "C09": dict(tech="TLC model checking of NonceInjective/BlindingPresent on the reference prover (MC_Hiding) + TLC trace validation: the emitted proof equals the reference prover's output on the recorded RNG stream, RNG construction operations + differential runs on the real curves",
                 text="On toy curves every proof field is recomputed by TLC from the witness, the recorded transcript-RNG stream and the challenges, so each blinding scalar is shown to be its own fresh draw and the draw count is exact; the RNG must be built from a transcript fork, one rekey per commitment blinding and 32 external bytes; on the 256-bit curves proofs under different external seeds share no component outside the statement-fixed ones.",
-                note="draw order of the reference revision is part of the reference prover; shapes n1<=3 (5), n2<=2 (4) in the model", ref="5 C09"),
+                note="which draw plays which role is found by intervention on the RNG stream (traced Merlin copy) and must be a bijection; the draw order is not assumed; value-level part on toy31723 only (generators coincide on toy79); shapes n1<=3 (5), n2<=2 (4) in the model", ref="5 C09"),
     "C10": dict(tech="TLC model checking of the inner-product argument (MC_IPP: exhaustive over F_7, sampled at P=31723 for k<=7) + TLC trace validation of create/verify on toy curves + replay of TLC-chosen instance patterns on the real curves",
                 text="Completeness, equivalence with explicit folding, rejection classes and the unrolled-first-round identity are model-checked; every create and verify run on toy curves through the guarded re-export is recomputed by TLC field by field (L, R, a, b, round count, verdict, transcript operations); the same instance patterns run on the 256-bit curves with ideal verdicts.",
                 note="k <= 5 quick / 7 thorough; toy exactness needs P^2 < 2^31; zero challenges on toy curves are degenerate events", ref="5 C10"),
-    "C11": dict(tech="TLC model checking of the decoder state machine (Codec/MC_Codec) + one generated test per (k, prefix length) and per (token, invalid class) run through the real from_bytes",
+    "C11": dict(tech="TLC model checking of the decoder state machine (Codec/MC_Codec) and of the composed machine (MC_Library: EncodeLaw, HostileStream, TrailingIgnored) + one generated test per (k, prefix length) and per (token, invalid class) run through the real from_bytes + TLC trace validation of recorded byte-level sessions (to_bytes token stream, adversarial bytes, from_bytes) against Library.tla on toy curves",
                 text="Size law, determinism, re-encode equality and equal verdict are checked per circuit shape; every strict prefix and every token position x invalid class (scalar >= modulus, off-curve, non-canonical, outside the prime-order subgroup) of honest encodings must yield FormatError; trailing bytes must decode to the identical proof.",
                 note="k <= 3 (4); per-curve token sizes; arkworks' unchecked decoder is the oracle for 'not a curve point'", ref="5 C11"),
-    "C12": dict(tech="TLC enumeration of all capacity histories and views (MC_Gens: HistoryIndependent, ViewPartyMajor) + execution of every history and view on the real generator tables + pinned digests",
+    "C12": dict(tech="TLC enumeration of all capacity histories and views (MC_Gens: HistoryIndependent, ViewPartyMajor; MC_Library: ChainIsGT, ChainGrows) + execution of every history and view on the real generator tables + pinned digests + TLC trace validation of recorded table lives of both roles against Library.tla (every table and view a window of one generator function per trace file; GensBound at prove / verify)",
                 text="Every history of new/increase_capacity/serialise-deserialise/clone within the bounds and every (n, m) view is executed on the real tables and compared entry by entry with the abstract chain; distinctness, non-identity, prime order and bit-for-bit digests from the reference revision are checked on large tables.",
                 note="capacities <= 4 (6), parties <= 2 (3), <= 3 (4) operations; digests pinned in fixtures/gens_digests.json", ref="5 C12"),
     "C13": dict(tech="TLC model checking of the Pedersen laws over F_7 + TLC trace validation of every (v, r) on toy7/toy79 + law instances on the real curves from TLC-chosen value-class patterns",
@@ -46,7 +46,7 @@ CHECKS = {
     "C15": dict(tech="TLC model checking of LCDenotation over all expression trees (MC_LC) + replay of every tree built with the real operators (accept at the value, reject off by one) + TLC trace validation on toy curves",
                 text="Every expression tree up to the depth bound is enumerated by TLC, the specification's transcription of each operator impl is checked against the tree's meaning, and each tree is built with the real operators and constrained to its value (must verify) and to its value plus one (must not) on all curves.",
                 note="depth 1 (all leaf kinds) quick, depth 2 thorough; real-curve constants computed by the harness evaluator, which TLC cross-checks on toy runs", ref="5 C15"),
-    "C17": dict(tech="TLC enumeration of the full (n1, n2, capP, capV) grid with ThresholdExact on the protocol model's guards + replay of every grid point on the real code",
+    "C17": dict(tech="TLC enumeration of the full (n1, n2, capP, capV) grid with ThresholdExact on the protocol model's guards and of table histories in the composed machine (MC_Library: CapLawP, CapLawV) + replay of every grid point on the real code (prove, verify, batch_verify at every shared capacity) + TLC trace validation of recorded sessions whose capacity is the state of a generator table (capacity error iff table capacity < padded size)",
                 text="The whole grid is enumerated; the model's expected result (ok / InvalidGeneratorsLength) for prove and verify at each point is compared with the real code on all curves, panics are violations, and proofs made at different sufficient capacities with the same seed must be byte-identical.",
                 note="grid (0..5)^2 x (0..9)^2 quick, (0..9)^2 x (0..17)^2 thorough", ref="5 C17"),
     "C16": dict(tech="TLC model checking of the lock-step builder model (MC_Builder) + replay of every generated call sequence on the real Prover and Verifier",
